@@ -23,10 +23,15 @@ use datafusion_common::{DataFusionError, Result, resources_datafusion_err};
 use log::debug;
 use parking_lot::Mutex;
 use std::fmt::{Display, Formatter};
+#[cfg(not(datafusion_verif))]
 use std::{
     num::NonZeroUsize,
     sync::atomic::{AtomicUsize, Ordering},
 };
+#[cfg(datafusion_verif)]
+use datafusion_common::verif::atomic::{AtomicUsize, Ordering};
+#[cfg(datafusion_verif)]
+use std::num::NonZeroUsize;
 
 /// A [`MemoryPool`] that enforces no limit
 #[derive(Debug, Default)]
